@@ -150,7 +150,7 @@ class CompanionPairVerifyProcedure(PairVerifyProcedure):
 
         encrypted_data = self.srp.verify1(self.credentials, server_pub_key, encrypted)
 
-        await self.protocol.exchange_auth(
+        resp = await self.protocol.exchange_auth(
             FrameType.PV_Next,
             {
                 PAIRING_DATA_KEY: write_tlv(
@@ -159,7 +159,10 @@ class CompanionPairVerifyProcedure(PairVerifyProcedure):
             },
         )
 
-        # TODO: check status code
+        # Device must acknowledge with M4 and no error
+        pairing_data = _get_pairing_data(resp)
+        if pairing_data.get(TlvValue.SeqNo) != b"\x04":
+            raise exceptions.AuthenticationError("unexpected verify response")
 
         return True
 
